@@ -7,9 +7,12 @@ Two sources of truth, both read on every run:
   * the source text itself for constants that live inside function bodies (the switch(base)
     divisors and digit alphabet of utils.c, getBasePrefix and scratch-buffer sizes of parser.c,
     the multiplier *expressions* of units.c, kept as exact rationals).
+
+The functions of fifo.c are translated as a whole (not only tables) by translate/c2lean.py, called from generate().
 """
 import os, re, subprocess, sys, json
 from fractions import Fraction
+sys.path.insert(0, os.path.dirname(os.path.abspath(__file__)))
 
 HERE = os.path.dirname(os.path.abspath(__file__))
 VERIF = os.path.dirname(HERE)
@@ -318,8 +321,28 @@ def generate(cfg="A", builddir=None, outpath=None):
     if old != text:
         with open(outpath, "w") as f:
             f.write(text)
-    return {"changed": old != text, "path": outpath, "failed": failed, "rows": {"errclass": len(errclass), "errdesc": len(errdesc),
-            "units": len(unit_rows), "special": len(special)}}
+
+    # C -> Lean translation of fifo.c (Gen/FifoC.lean, next to the tables): regenerated on every run from clang's typed AST.
+    # A function outside the translator's subset is left out of the generated file (the whole file is a stub without
+    # definitions when nothing can be translated), so the refinement theorems of Lemmas/FifoC.lean and the c_fifo_* theorems
+    # of Props/C10.lean stop building; the other sections and properties are unaffected.
+    fifo_c = {"functions": [], "changed": False}
+    try:
+        import c2lean
+        fifo_c = c2lean.generate_fifo(os.path.join(os.path.dirname(outpath), "FifoC.lean"))
+        if fifo_c["failed"]:
+            failed["fifo_c"] = "; ".join("%s: %s" % kv for kv in sorted(fifo_c["failed"].items()))[:400]
+    except Exception as e:  # the translator itself is broken: same treatment as a section that cannot be extracted
+        failed["fifo_c"] = ("c2lean: %s: %s" % (type(e).__name__, e))[:400]
+        try:
+            import c2lean as _c
+            with open(os.path.join(os.path.dirname(outpath), "FifoC.lean"), "w") as f:
+                f.write(_c.stub("ScpiVerif.Gen.FifoC", failed["fifo_c"]))
+        except Exception:
+            pass
+    return {"changed": old != text or fifo_c.get("changed", False), "path": outpath, "failed": failed,
+            "rows": {"errclass": len(errclass), "errdesc": len(errdesc), "units": len(unit_rows), "special": len(special),
+                     "fifo_c_functions": len(fifo_c.get("functions", []))}}
 
 if __name__ == "__main__":
     cfg = sys.argv[1] if len(sys.argv) > 1 else "A"
